@@ -172,6 +172,28 @@ def identity_programs():
             body.append(["try", [echo("t%d;" % i), ["expr", ["assign", "r", rz]], echo("never")], [[T, "e", [echo("<%s>" % T)]]], [echo("f;")]])
         out.append({"classes": CLASSES, "ifaces": IFACES, "funcs": [f3, req],
                     "main": [["try", body, [["Throwable", None, [echo("outer;")]]], [echo("F")]]]})
+    # every exception object has ITS OWN message: several live objects of the same class, of a parent and a child class and of the
+    # built-in Exception, read in every order, thrown oldest-first and newest-first (/repo a00cfd0: one message per class)
+    mk = lambda x, cl, m: ["expr", ["assign", x, ["new", cl, lit(m)]]]
+    objs = [("a", "E1", "ma"), ("b", "E1", "mb"), ("c", "E2", "mc"), ("d", "Exception", "md"), ("e2", "E4", "me")]
+    shows = [tag(" %s=" % x, ["msg", var(x)]) for x, _, _ in objs]
+    for order in (list(range(5)), [4, 3, 2, 1, 0], [2, 0, 4, 1, 3]):
+        throws = []
+        for i in order:
+            x = objs[i][0]
+            throws.append(["try", [["throw", var(x)]], [["Exception", "z", [tag(" <", ["msg", var("z")]), tag(":", ["class", var("z")]),
+                                                                     ["if", ["same", var("z"), var(x)], [echo("=")], [], [echo("!")]]]]], None])
+        out.append(dict(base, main=[mk(*o) for o in objs] + shows + throws + list(reversed(shows)) + [mk("a", "E1", "again")] + shows))
+    # the value of `return $arr` inside try / catch is fixed before finally runs: finally pushes to, overwrites and reassigns the
+    # variable; the caller sees the array as it was at the return (/repo 2b13335)
+    ret = lambda body: {"name": "r", "params": [["k", None]], "body": body}
+    fin = [["push", "arr", lit(3)], ["setidx", "arr", 0, lit(9)], echo("{f}")]
+    showarr = lambda: [["expr", ["assign", "got", ["call", "r", [lit(1)]]]], ["foreach", var("got"), "i", "v", [tag(" ", var("i")), tag("=", var("v"))]]]
+    mkarr = ["expr", ["assign", "arr", ["arr", [lit(1), lit(2)]]]]
+    out.append(dict(base, funcs=[ret([mkarr, ["try", [["return", var("arr")]], [], fin], ["return", lit(0)]])], main=showarr()))
+    out.append(dict(base, funcs=[ret([mkarr, ["try", [["throw", ["new", "E1", lit("x")]]], [["E1", "e", [["return", var("arr")]]]], fin], ["return", lit(0)]])], main=showarr()))
+    out.append(dict(base, funcs=[ret([mkarr, ["try", [["try", [["return", var("arr")]], [], [["push", "arr", lit(7)], echo("{f1}")]]], [], fin], ["return", lit(0)]])], main=showarr()))
+    out.append(dict(base, funcs=[ret([mkarr, ["try", [["return", var("arr")]], [], [["expr", ["assign", "arr", ["arr", [lit(5)]]]], echo("{f}")]], ["return", lit(0)]])], main=showarr()))
     # rethrow keeps class, message and identity through an outer finally
     out.append(dict(base, main=[
         ["expr", ["assign", "o", ["new", "E2", lit("re")]]],
